@@ -1,4 +1,7 @@
 import CfrVerif.Proofs.VanillaBound
+import CfrVerif.Props.C05
+import CfrVerif.Props.C06
+import CfrVerif.Props.C09
 /-!
 # C02 — the regret bound of the unsampled vanilla solve dominates the true regret
 
@@ -22,6 +25,18 @@ namespace Cfr
 /-- the profile a solve returns -/
 def SolveOut.profile (o : SolveOut ℝ) : Bool → Strat ℝ := fun one => if one then o.stratOne else o.stratTwo
 
+/-- what `Final` (the invariant of the run, `Proofs/VanillaBound.lean`) gives for the returned
+record -/
+theorem final_dominates (g : Game ℝ) (hg : GameWF g) (o : SolveOut ℝ) (h : Final g o) :
+    ∃ b1 b2 : ℝ, o.regOne = .fin b1 ∧ o.regTwo = .fin b2 ∧ 0 ≤ b1 ∧ 0 ≤ b2 ∧
+      (getInfo g o.profile).regret ≤ max b1 b2 := by
+  obtain ⟨σs, s, hne, hinv, e1, e2, e3, e4⟩ := h
+  have hp : o.profile = s.avg := by
+    funext one
+    cases one <;> simp [SolveOut.profile, e3, e4]
+  exact ⟨_, _, e1, e2, boundSum_nonneg _ _, boundSum_nonneg _ _,
+    by rw [hp]; exact bound_dominates g hg σs s hne hinv⟩
+
 /-- **the bound dominates the true regret** (single thread) -/
 theorem full_vanilla_bound_dominates (g : Game ℝ) (hg : GameWF g) (draw : DrawFn ℝ) (T : Nat)
     (hT : 0 < T) (thr : Option (Ext ℝ)) :
@@ -30,8 +45,8 @@ theorem full_vanilla_bound_dominates (g : Game ℝ) (hg : GameWF g) (draw : Draw
       (solveVanillaSingle g false RegretParams.vanilla draw T thr).regTwo = .fin b2 ∧
       0 ≤ b1 ∧ 0 ≤ b2 ∧
       (getInfo g (solveVanillaSingle g false RegretParams.vanilla draw T thr).profile).regret
-        ≤ max b1 b2 := by
-  sorry
+        ≤ max b1 b2 :=
+  final_dominates g hg _ (solve_final g hg draw T hT thr)
 
 /-- **every thread count**: the same for the multi-threaded solver, every task target, every
 fair schedule -/
@@ -43,7 +58,8 @@ theorem full_vanilla_bound_dominates_multi (sched : Sched ℝ) (hs : sched.Fair)
       0 ≤ b1 ∧ 0 ≤ b2 ∧
       (getInfo g (solveVanillaMultiS sched g false RegretParams.vanilla draw T thr target).profile).regret
         ≤ max b1 b2 := by
-  sorry
+  rw [full_multi_eq_single sched hs]
+  exact full_vanilla_bound_dominates g hg draw T hT thr
 
 /-- **early termination is sound**: if the run used fewer iterations than its budget, the true
 regret of what it returns is strictly below the requested threshold -/
@@ -52,6 +68,83 @@ theorem full_vanilla_early_stop_sound (g : Game ℝ) (hg : GameWF g) (draw : Dra
     (hstop : (solveVanillaSingle g false RegretParams.vanilla draw T (some r)).iters < T) :
     Ext.lt (.fin (getInfo g
       (solveVanillaSingle g false RegretParams.vanilla draw T (some r)).profile).regret) r = true := by
-  sorry
+  have hT : 0 < T := by omega
+  obtain ⟨b1, b2, e1, e2, _, _, hle⟩ := full_vanilla_bound_dominates g hg draw T hT (some r)
+  -- the run is the threshold-free run of budget `tstar`, whose length is `tstar`
+  have hit : (solveVanillaSingle g false RegretParams.vanilla draw T (some r)).iters
+      = tstar g (vanillaIter g false RegretParams.vanilla draw) T (some r) := by
+    rw [vanilla_single_threshold_eq_prefix]
+    unfold solveVanillaSingle solveWith
+    rw [solveLoop_none_iters]
+    omega
+  have hrl : runLength (vanillaIter g false RegretParams.vanilla draw) (some r) T 1
+      (SolveSt.init g) [] < T := by
+    rw [hit] at hstop; exact hstop
+  obtain ⟨c1, c2, f1, f2, hb⟩ := stopped_early_below_threshold
+    (vanillaIter g false RegretParams.vanilla draw) (some r) T 1 (SolveSt.init g) .posInf .posInf []
+    hrl
+  have f1' : (solveVanillaSingle g false RegretParams.vanilla draw T (some r)).regOne = .fin c1 := f1
+  have f2' : (solveVanillaSingle g false RegretParams.vanilla draw T (some r)).regTwo = .fin c2 := f2
+  rw [e1] at f1'
+  rw [e2] at f2'
+  obtain rfl : b1 = c1 := by injection f1'
+  obtain rfl : b2 = c2 := by injection f2'
+  simp only [belowThreshold, fmax_eq_max] at hb
+  cases r with
+  | negInf => simp [Ext.lt] at hb
+  | posInf => rfl
+  | fin y =>
+    simp only [Ext.lt, decide_eq_true_eq] at hb ⊢
+    exact lt_of_le_of_lt hle hb
+
+/-! ## non-vacuity: the hypotheses are satisfiable and the theorems apply to a concrete game -/
+
+/-- on the two-player game of C05 (a chance move, matching pennies with a shared infoset of
+player two): every positive budget, every threshold, every oracle -/
+example (draw : DrawFn ℝ) (T : ℕ) (hT : 0 < T) (thr : Option (Ext ℝ)) :
+    ∃ b1 b2 : ℝ,
+      (solveVanillaSingle C05.tinyGame false RegretParams.vanilla draw T thr).regOne = .fin b1 ∧
+      (solveVanillaSingle C05.tinyGame false RegretParams.vanilla draw T thr).regTwo = .fin b2 ∧
+      0 ≤ b1 ∧ 0 ≤ b2 ∧
+      (getInfo C05.tinyGame
+        (solveVanillaSingle C05.tinyGame false RegretParams.vanilla draw T thr).profile).regret
+        ≤ max b1 b2 :=
+  full_vanilla_bound_dominates C05.tinyGame C05.tinyGame_wf draw T hT thr
+
+/-- the same through the multi-threaded solver, for every task target and fair schedule -/
+example (sched : Sched ℝ) (hs : sched.Fair) (draw : DrawFn ℝ) (target : ℕ) :
+    ∃ b1 b2 : ℝ,
+      (solveVanillaMultiS sched C05.tinyGame false RegretParams.vanilla draw 7 none target).regOne
+        = .fin b1 ∧
+      (solveVanillaMultiS sched C05.tinyGame false RegretParams.vanilla draw 7 none target).regTwo
+        = .fin b2 ∧
+      0 ≤ b1 ∧ 0 ≤ b2 ∧
+      (getInfo C05.tinyGame
+        (solveVanillaMultiS sched C05.tinyGame false RegretParams.vanilla draw 7 none target).profile).regret
+        ≤ max b1 b2 :=
+  full_vanilla_bound_dominates_multi sched hs C05.tinyGame C05.tinyGame_wf draw 7 (by norm_num) none
+    target
+
+/-- the hypothesis of `full_vanilla_early_stop_sound` is satisfiable: with the threshold `+∞`
+the run stops right after its first iteration, whatever the budget `T ≥ 2` -/
+example (draw : DrawFn ℝ) (T : ℕ) (hT : 2 ≤ T) :
+    (solveVanillaSingle C05.tinyGame false RegretParams.vanilla draw T (some .posInf)).iters < T := by
+  obtain ⟨n, rfl⟩ : ∃ n, T = n + 1 := ⟨T - 1, by omega⟩
+  unfold solveVanillaSingle solveWith
+  rw [solveLoop_succ]
+  simp only [belowThreshold, Ext.lt, if_true]
+  omega
+
+/-- … and then the conclusion applies (here it says: the true regret is a finite number) -/
+example (draw : DrawFn ℝ) (T : ℕ) (hT : 2 ≤ T) :
+    Ext.lt (.fin (getInfo C05.tinyGame
+      (solveVanillaSingle C05.tinyGame false RegretParams.vanilla draw T (some .posInf)).profile).regret)
+      .posInf = true :=
+  full_vanilla_early_stop_sound C05.tinyGame C05.tinyGame_wf draw T .posInf (by
+    obtain ⟨n, rfl⟩ : ∃ n, T = n + 1 := ⟨T - 1, by omega⟩
+    unfold solveVanillaSingle solveWith
+    rw [solveLoop_succ]
+    simp only [belowThreshold, Ext.lt, if_true]
+    omega)
 
 end Cfr
